@@ -159,6 +159,31 @@ Theorem C03_no_halt_da_heights_full : forall pk g, g_proposer g = Addr pk -> for
 Proof. exact no_halt_da_heights_full. Qed.
 Print Assumptions C03_no_halt_da_heights_full.
 
+(* ---- copies that keep an item's identity; signers without a public key ------------------------------ *)
+(* the node names a header by its hash and signed data by its commitment; neither covers signature or signer.
+   A third party's blob read AHEAD of any blob b - in particular a copy of b with the same header / the same data
+   under another signature or signer, which needs no private key - leaves no trace under that identity: b then
+   does exactly what it does alone (DA-included mark, hand-over to the syncer, everything).  Earlier DA height: *)
+Theorem C03_identity_copy_ahead_full : forall pk g, g_proposer g = Addr pk -> forall now tb s b' b,
+  blob_adversarial pk b' = true -> hstore_inv pk s ->
+  node_final g now tb s [IDA b'; IDA b] = node_final g now tb s [IDA b].
+Proof. exact identity_copy_ahead. Qed.
+Print Assumptions C03_identity_copy_ahead_full.
+(* ... earlier position in the same DA height *)
+Theorem C03_identity_copy_same_height_full : forall pk g, g_proposer g = Addr pk -> forall now tb s b' b,
+  blob_adversarial pk b' = true -> hstore_inv pk s ->
+  fst (node_step g now tb s (IDAHeight [b'; b])) = fst (node_step g now tb s (IDAHeight [b])).
+Proof. exact identity_copy_same_height. Qed.
+Print Assumptions C03_identity_copy_same_height_full.
+(* a header or signed-data blob whose signer has NO public key (the wire format allows a signer that is an address
+   alone), whatever address, signature and content it carries: nothing happens - no mark, no event, no panic, the
+   node state is untouched *)
+Theorem C03_keyless_signer_ignored_full : forall g now tb s b,
+  match b with BHdr sh => sg_pub (sh_signer sh) = None | BData sd => sg_pub (sd_signer sd) = None | _ => False end ->
+  node_step g now tb s (IDA b) = (s, 0%N).
+Proof. exact keyless_step. Qed.
+Print Assumptions C03_keyless_signer_ignored_full.
+
 (* ---- P2P path: the header store of a light (header-only) node and of a full node ------------------ *)
 (* full statement: a store holding only proposer-signed headers still does after any gossip item.
    FALSE (F4): Validate() is the embedded Header's, the signature is never looked at. *)
@@ -217,6 +242,22 @@ Definition da_adv : list item :=
     IDA (BHdr stolen_sig); IDA BJunk; IDA BHdrUndecodable; IDA BEmpty ].
 Example ex_da_guard : forallb (da_adversarial W.pk) da_adv = true /\ forallb (init_ok W.pk) W.genuine = true
   /\ forallb (init_ok W.pk) W.genuine_p2p = true.
+Proof. vm_compute. repeat split; reflexivity. Qed.
+(* a copy of the proposer's header of block 2 with the same Header and the proposer's signer but a junk signature, and
+   one whose signer is the proposer's address WITHOUT the public key (same for the signed data): same identity; read ahead of the proposer's own blobs - at earlier DA heights and inside the same height -
+   they change nothing: DA-included height 2 all the same *)
+Definition junk_copy2 : sheader := {| sh_hdr := W.H2; sh_sig := SigJunk 1; sh_signer := W.prop_signer |}.
+Definition keyless_copy2 : sheader := {| sh_hdr := W.H2; sh_sig := Sig W.pk W.H2; sh_signer := {| sg_pub := None; sg_addr := Addr W.pk |} |}.
+Definition keyless_data2 : sdata := {| sd_data := W.D2; sd_sig := DSig W.pk W.D2; sd_signer := {| sg_pub := None; sg_addr := Addr W.pk |} |}.
+Example ex_identity_copies :
+  (blob_adversarial W.pk (BHdr junk_copy2) = true) /\
+  (sg_pub (sh_signer keyless_copy2) = None /\ sg_pub (sd_signer keyless_data2) = None) /\
+  (header_eqb (sh_hdr junk_copy2) (sh_hdr W.sh2) && header_eqb (sh_hdr keyless_copy2) (sh_hdr W.sh2) = true) /\
+  (node_final W.gen W.now W.tb W.s0
+     [IDA (BHdr W.sh1); IDA (BHdr junk_copy2); IDA (BHdr keyless_copy2); IDAHeight [BData keyless_data2; BHdr junk_copy2; BHdr W.sh2; BData W.sd2]]
+   = node_final W.gen W.now W.tb W.s0 [IDA (BHdr W.sh1); IDAHeight [BHdr W.sh2; BData W.sd2]]) /\
+  (da_included_height W.gen (node_final W.gen W.now W.tb W.s0
+     [IDA (BHdr W.sh1); IDA (BHdr junk_copy2); IDA (BHdr keyless_copy2); IDAHeight [BData keyless_data2; BHdr junk_copy2; BHdr W.sh2; BData W.sd2]]) = 2).
 Proof. vm_compute. repeat split; reflexivity. Qed.
 (* a DA height with 130 third-party blobs (junk, undecodable headers, forgeries) ahead of the proposer's header
    and data of block 2, 57 more behind: 3 Get calls, the last one partial and holding the proposer's blobs; the
